@@ -514,7 +514,8 @@
   (assume (comparator? comparator))
   (assume (mapping? mapping1))
   (assume (mapping? mapping2))
-  (not (%mapping<=? comparator mapping1 mapping2)))
+  (and (%mapping<=? comparator mapping2 mapping1)
+       (not (%mapping<=? comparator mapping1 mapping2))))
 
 (define mapping<?
   (case-lambda
@@ -560,7 +561,7 @@
   (assume (comparator? comparator))
   (assume (mapping? mapping1))
   (assume (mapping? mapping2))
-  (not (%mapping<? comparator mapping1 mapping2)))
+  (%mapping<=? comparator mapping2 mapping1))
 
 ;; Set theory operations
 
